@@ -1301,7 +1301,6 @@ class HttpHeaderFieldValuePublicKeyPinning(FieldsSemicolonSeparated):
     max_age = attr.ib(
         converter=HttpHeaderFieldValueComponentMaxAge.convert,
         validator=attr.validators.instance_of(HttpHeaderFieldValueComponentMaxAge),
-        default=None
     )
     include_subdomains = attr.ib(
         converter=HttpHeaderFieldValueComponentIncludeSubDomains.convert,
